@@ -224,14 +224,16 @@ Section Tick.
     injection Eo as <-. fold (subscribers s) in H.
     pose proof (subs_indexed_subscribers s hs Hk) as Hs. rewrite Hs in *.
     split; [assumption|]. split; [assumption|].
-    destruct (bool_decide_reflect (h ∈ hs)) as [Hin|Hin].
+    destruct (decide (h ∈ hs)) as [Hin|Hin];
+      [rewrite bool_decide_eq_true_2 in H by exact Hin
+      |rewrite bool_decide_eq_false_2 in H by exact Hin].
     - injection H as <- <-. left. auto.
     - inv_ob H. injection H as <- <-. right. rewrite Hk, imap_length in *.
       assert (Hkey : Z.to_N (Z.of_nat (length hs)) :: h = sub_key (length hs) h)
         by (unfold sub_key; f_equal; lia).
       rewrite Hkey. pose proof (skeys_insert_last (subs s) hs h Hk Hin) as Hk'.
       split; [exact Hin|]. split; [reflexivity|]. split; [reflexivity|]. split.
-      + unfold subscribers. cbn [subs set_subs]. rewrite Hk'. apply imap_sub_key_tail.
+      + unfold subscribers, set_subs. simpl subs. rewrite Hk'. apply imap_sub_key_tail.
       + exists (hs ++ [h]). split; [|split].
         * apply NoDup_app. split; [exact Hnd|]. split; [|apply NoDup_singleton].
           intros x Hx Hx'. apply elem_of_list_singleton in Hx'. by subst.
